@@ -7,6 +7,7 @@ pub mod c06;
 pub mod c07;
 pub mod c08;
 pub mod c10;
+pub mod c12;
 pub mod c13;
 pub mod c14;
 
@@ -17,6 +18,7 @@ pub fn scenario_for(property: &str) -> Option<ScenarioFn> {
         "C07" => Some(c07::run),
         "C08" => Some(c08::run),
         "C10" => Some(c10::run),
+        "C12" => Some(c12::run),
         "C13" => Some(c13::run),
         "C14" => Some(c14::run),
         _ => None,
